@@ -28,7 +28,7 @@ CHECKS = {
          'For every explored schedule every reply, every served/time-out event, the final lists and the registry snapshot are what the reference relation allows: elements conserved, FIFO service per key, nobody stranded at quiescence, no leftover registration, time-outs not early and not missing.'),
  'C09': ('model_checking', 'TLC trace validation of SAVE / kill / restart round trips of command-built datasets against the persistence relation of the spec (CmdSAVE/Restarted in spec/Ferrous.tla); the bounded instance is trivial, the states reported are those of the trace validation',
          'For every explored dataset (every type, sizes around the length-encoding boundaries, all 16 databases, TTLs shorter and longer than the downtime, marker strings, infinite scores) the dump of all databases after the restart equals Restart(dump before SAVE), deadlines to clock granularity.'),
- 'C19': ('model_checking', 'TLC model checking of the cursor mechanism (spec/impl/ImplScan.tla, repaired design; pinned design kept as a switch) + full cursor iterations with interleaved additions/deletions on the real server + TLC trace validation of the iteration guarantee (stable/ever/returned sets per open iteration)',
+ 'C19': ('model_checking', 'TLC model checking of the cursor mechanism (spec/impl/ImplScan.tla, repaired design; pinned design kept as a switch) + an inductive invariant of it discharged by Apalache for any number of mutations and any COUNT (spec/impl/ImplScanInd.tla) + full cursor iterations with interleaved additions/deletions on the real server + TLC trace validation of the iteration guarantee (stable/ever/returned sets per open iteration)',
          'For every explored full iteration of SCAN/HSCAN/SSCAN/ZSCAN (all COUNTs from 1, MATCH, TYPE, interleaved modifications) the union of returned elements contains every element present and matching throughout, contains nothing that never existed, and the iteration terminates.'),
  'C20': ('model_checking', 'TLC model checking of a TLA+ transcription of RespParser (spec/impl/ImplParser.tla: totality, prefix stability => chunking independence, for all byte strings over a 17-symbol alphabet up to length 5/6) + the same enumeration, frame trees, absurd lengths and deep nesting run through the real parser/serializer in a child process (fvh codec, counting allocator) + TLC validation of the recorded results against Ser (spec/RespCodec.tla, CodecTrace.tla)',
          'Round trip through the real serializer and parser equals the TLA+ Ser for every enumerated frame tree; for every enumerated byte string the real parser is total, gives the same frames/errors for every chunking, and its peak allocation is bounded by the bytes received.'),
